@@ -173,8 +173,16 @@ impl ContainerContext {
 
 impl Drop for ContainerContext {
     fn drop(&mut self) {
-        util::run_command(DockerRemoveContainerCommand::new(&self.container_name)).unwrap_or_else(
-            |command_err| panic!("Error removing Docker container:\n\n{command_err}"),
-        );
+        if let Err(command_err) =
+            util::run_command(DockerRemoveContainerCommand::new(&self.container_name))
+        {
+            // Panicking while the thread is already unwinding aborts the process, which would
+            // skip the remaining cleanup (Docker image, cache volumes, temporary directories).
+            if std::thread::panicking() {
+                eprintln!("Error removing Docker container:\n\n{command_err}");
+            } else {
+                panic!("Error removing Docker container:\n\n{command_err}");
+            }
+        }
     }
 }
